@@ -19,34 +19,130 @@ def _instance_of(fn, nid):
     return None
 
 
+class _Stuck(Exception):
+    pass
+
+
+def _functor_calls(fn):
+    """calls of the functor parameter (directly or through std::forward)"""
+    out = []
+    for e in flow.find(fn, {"k": "call"}):
+        k = fn.kids(e)
+        if k and flow.has_src(fn, k[0], "param#0") and fn.nodes[e].get("callee", "").endswith("operator()") or (
+                k and fn.nodes[k[0]]["k"] == "ref" and fn.nodes[k[0]].get("dk") == "param"):
+            out.append(e)
+    return out
+
+
+def _run(fn, indicator):
+    """execute read()/update() with the left/right indicator holding `indicator`: returns the trace of ("func", instance), ("store", value),
+    ("toggle", None) events.  Values: ints, "_left"/"_right" (the two instances).  Raises _Stuck when a branch cannot be decided."""
+    funcs = set(_functor_calls(fn))
+    env = {}
+    trace = []
+
+    def ev(nid, depth=0):
+        if depth > 30:
+            raise _Stuck("expression too deep")
+        n = fn.nodes[nid]
+        k = n["k"]
+        c = fn.kids(nid)
+        a = fn.atomic(nid) if k == "call" else None
+        if a and a["field"].endswith("left_right::_lr_indicator") and a["kind"] == "load":
+            return indicator
+        if k == "lit" or (k == "ref" and n.get("dk") == "enumconst") or (isinstance(n.get("v"), int) and k in ("ref", "member")):
+            return n["v"]
+        if k == "member" and n.get("leaf") in ("_left", "_right"):
+            return n["leaf"]
+        if k == "ref" and n.get("dk") == "local":
+            if n["name"] in env:
+                return env[n["name"]]
+            raise _Stuck("local %s not defined on this path" % n["name"])
+        if k == "cast" and c:
+            return ev(c[0], depth + 1)
+        if k == "un" and n["op"] == "!" and c:
+            return int(not ev(c[0], depth + 1))
+        if k == "bin" and len(c) == 2 and n["op"] in ("==", "!=", "&&", "||", "^", "&", "-", "+"):
+            x = ev(c[0], depth + 1)
+            if n["op"] == "&&" and not x:
+                return 0
+            if n["op"] == "||" and x:
+                return 1
+            y = ev(c[1], depth + 1)
+            if isinstance(x, str) or isinstance(y, str):
+                if n["op"] in ("==", "!="):
+                    return int((x == y) == (n["op"] == "=="))
+                raise _Stuck("arithmetic on an instance")
+            return {"==": int(x == y), "!=": int(x != y), "&&": int(bool(x and y)), "||": int(bool(x or y)), "^": x ^ y, "&": x & y, "-": x - y, "+": x + y}[n["op"]]
+        if k == "cond" and len(c) == 3:
+            return ev(c[1] if ev(c[0], depth + 1) else c[2], depth + 1)
+        raise _Stuck("cannot evaluate %s" % fn.expr(nid)[:60])
+
+    b = fn.entry
+    steps = 0
+    while b is not None and steps < 200:
+        steps += 1
+        blk = fn.blocks[b]
+        for e in blk["elems"]:
+            n = fn.nodes[e]
+            if n["k"] == "decl":
+                for v in n["vars"]:
+                    if "init" in v:
+                        try:
+                            env[v["name"]] = ev(v["init"])
+                        except _Stuck:
+                            env.pop(v["name"], None)
+            elif n["k"] == "bin" and n["op"] == "=" and fn.nodes[fn.kids(e)[0]]["k"] == "ref" and fn.nodes[fn.kids(e)[0]].get("dk") == "local":
+                try:
+                    env[fn.nodes[fn.kids(e)[0]]["name"]] = ev(fn.kids(e)[1])
+                except _Stuck:
+                    env.pop(fn.nodes[fn.kids(e)[0]]["name"], None)
+            elif e in funcs:
+                args = fn.kids(e)[1:]
+                try:
+                    trace.append(("func", ev(args[0]) if args else None))
+                except _Stuck:
+                    trace.append(("func", None))
+            elif n["k"] == "call":
+                a = fn.atomic(e)
+                if a and a["field"].endswith("left_right::_lr_indicator") and a["kind"] == "store":
+                    try:
+                        trace.append(("store", ev(fn.kids(e)[1])))
+                    except _Stuck:
+                        trace.append(("store", None))
+                elif n.get("callee", "").endswith("::toggle_version_and_wait"):
+                    trace.append(("toggle", None))
+        succ = [s for s in blk["succ"]]
+        if not succ or all(s is None for s in succ):
+            break
+        if "cond" in blk and len(succ) == 2:
+            t = ev(blk["cond"])
+            b = succ[0] if t else succ[1]
+        else:
+            b = succ[0]
+    return trace
+
+
 def rules(ctx):
     rid = "LR.table"
     ctx.rule(rid, "left_right reader/writer table agreement (finite): the reader map R (indicator value -> instance) from read() and the writer branches of "
                   "update() agree: in the branch taken for indicator value v the first functor call targets the instance != R(v), the seq_cst store writes v' "
                   "with R(v') = that instance, then toggle_version_and_wait(), then the functor is applied to R(v); exactly two functor calls per path, all under the mutex")
-    # reader map
+    # reader map: execute read() for both indicator values
     R = {}
     for fn in flow._shapes(ctx, L + "read"):
-        conds = [e for e, n in enumerate(fn.nodes) if n["k"] == "cond"]
         lds = flow.find(fn, {"k": "call", "field": "left_right::_lr_indicator", "op": "load"})
-        if not conds or not lds:
-            ctx.broken.append("left_right::read: indicator selection idiom not found")
+        if not lds:
+            ctx.broken.append("left_right::read: no load of the left/right indicator")
             continue
-        c = conds[0]
-        k = fn.kids(c)
-        cmpn = fn.nodes[k[0]]
-        const = None
-        for x in fn.kids(k[0]):
-            if "v" in fn.nodes[x]:
-                const = fn.nodes[x]["v"]
-        if cmpn["k"] != "bin" or cmpn["op"] not in ("==", "!=") or const is None:
-            ctx.broken.append("left_right::read: selection condition not of the form indicator == CONST")
-            continue
-        a, b = _instance_of(fn, k[1]), _instance_of(fn, k[2])
-        if cmpn["op"] == "!=":
-            a, b = b, a
-        R[const] = a
-        R[1 - const] = b
+        for v in (0, 1):
+            try:
+                tr = _run(fn, v)
+            except _Stuck as ex:
+                ctx.broken.append("left_right::read not executable for indicator=%d (%s)" % (v, ex))
+                tr = []
+            fs = [x[1] for x in tr if x[0] == "func"]
+            R[v] = fs[0] if len(fs) == 1 else None
         # guard constructed before the indicator is read; functor called on the selected instance
         gd = [e for e in flow.find(fn, {"k": "construct", "callee": "read_guard::read_guard"})]
         ok = bool(gd) and all(any(fn.before(g, l) for g in gd) for l in lds)
@@ -60,49 +156,26 @@ def rules(ctx):
         return
     for fn in flow._shapes(ctx, L + "update"):
         lock = flow.find(fn, {"k": "construct", "callee_re": r"lock_guard::lock_guard$"}) + flow.find(fn, call("lock"))
-        funcs = [e for e in flow.find(fn, {"k": "call"}) if fn.kids(e) and fn.nodes[fn.kids(e)[0]]["k"] == "ref" and fn.nodes[fn.kids(e)[0]].get("dk") == "param"]
+        funcs = _functor_calls(fn)
         stores = flow.find(fn, {"k": "call", "field": "left_right::_lr_indicator", "op": "store"})
-        toggles = flow.find(fn, call("toggle_version_and_wait"))
         ctx.check(bool(lock) and all(any(fn.before(l, f) for l in lock) for f in funcs), rid, L + "update#under-mutex", "all functor calls under the writer mutex",
                   "update() applies the functor outside the writer mutex", fn.where(), fn=fn)
-        # branch condition: indicator load == CONST
-        branches = [(b, blk) for b, blk in fn.blocks.items() if "cond" in blk and "_lr_indicator" in fn.expr(blk["cond"]) and b in fn.live_blocks()]
-        if not branches or len(funcs) != 4 or len(stores) != 2 or len(toggles) != 2:
-            ctx.bad(rid, L + "update#shape", "update(): expected one indicator branch with two functor calls, one indicator store and one toggle per arm "
-                                             "(branches %d, functor calls %d, stores %d, toggles %d)" % (len(branches), len(funcs), len(stores), len(toggles)), fn.where(), fn=fn)
+        if not funcs or not stores:
+            ctx.bad(rid, L + "update#shape", "update(): no functor call / no indicator store found (functor calls %d, stores %d)" % (len(funcs), len(stores)), fn.where(), fn=fn)
             continue
-        b, blk = branches[0]
-        cn = fn.nodes[blk["cond"]]
-        const = [fn.nodes[x]["v"] for x in fn.kids(blk["cond"]) if "v" in fn.nodes[x]]
-        if cn["k"] != "bin" or cn["op"] not in ("==", "!=") or not const:
-            ctx.broken.append("left_right::update: branch condition not of the form indicator == CONST")
-            continue
-        tv = const[0] if cn["op"] == "==" else 1 - const[0]
-        arms = {tv: blk["succ"][0], 1 - tv: blk["succ"][1]}
-        for v, start in arms.items():
-            reach = fn.reachable_blocks(start)
-            evs = []
-            for bb in sorted(reach, reverse=True):
-                for e in fn.blocks[bb]["elems"]:
-                    if e in funcs or e in stores or e in toggles:
-                        evs.append(e)
-            # keep only events of this arm (not reachable from the other arm's start)
-            other = fn.reachable_blocks(arms[1 - v])
-            evs = [e for e in evs if fn.pos()[e][0] not in other or fn.pos()[e][0] in reach and fn.pos()[e][0] not in other]
-            seq = []
-            for e in evs:
-                if e in funcs:
-                    seq.append(("func", _instance_of(fn, e)))
-                elif e in stores:
-                    seq.append(("store", fn.nodes[fn.kids(e)[1]].get("v")))
-                else:
-                    seq.append(("toggle", None))
+        # execute update() for both values of the indicator (finite, path-sensitive)
+        for v in (0, 1):
             inst = L + "update#arm(indicator=%d)" % v
+            try:
+                seq = _run(fn, v)
+            except _Stuck as ex:
+                ctx.broken.append("left_right::update not executable for indicator=%d (%s)" % (v, ex))
+                continue
             want_first = R[1 - v]
-            ok = (len(seq) == 4 and seq[0] == ("func", want_first) and seq[1][0] == "store" and seq[1][1] is not None and R.get(seq[1][1]) == want_first
+            ok = (len(seq) == 4 and seq[0] == ("func", want_first) and seq[1][0] == "store" and seq[1][1] in (0, 1) and R.get(seq[1][1]) == want_first
                   and seq[2][0] == "toggle" and seq[3] == ("func", R[v]))
             ctx.check(ok, rid, inst, "sequence %s agrees with the reader map" % seq,
-                      "writer arm for indicator=%d performs %s; with the reader map %s it must be: func(%s), store(v' with R(v')=%s) [seq_cst], toggle_version_and_wait, func(%s) - "
+                      "writer path for indicator=%d performs %s; with the reader map %s it must be: func(%s), store(v' with R(v')=%s) [seq_cst], toggle_version_and_wait, func(%s) - "
                       "otherwise the functor modifies the instance readers are using" % (v, seq, R, want_first, want_first, R[v]), fn.where(), fn=fn)
         ctx.check(all(fn.atomic(s)["orders"] == ["seq_cst"] for s in stores), rid, L + "update#indicator-store-seq_cst", "indicator stores are seq_cst", "indicator store must be seq_cst", fn.where(), fn=fn)
         ctx.exhaustive[rid] = True
